@@ -69,6 +69,7 @@ def enc_stats_table(df, ncell):
                 row[c] = enc_rat(v, ncell * ncell, square=True)
             else:
                 row[c] = enc_int(v)
+        row["raw"] = [None if (isinstance(r[c], float) and np.isnan(r[c])) else float(r[c]) for c in cols]
         rows.append(row)
     return {"columns": cols, "rows": rows}
 
